@@ -67,6 +67,8 @@ func extraCorpora() []CorpusSpec {
 	for _, e := range entries2 {
 		name := "x_" + strings.TrimSuffix(filepath.Base(e), ".tl2")
 		out = append(out, CorpusSpec{Name: name, Schemas: []string{e}, Flags: []string{"--tl2WhiteList=*", "--generateByteVersions=*", "--generateRandomCode"}, TL2: true, Bytes: true, LengthCheck: true, Random: true, Quick: true})
+		// the same schema laid out per namespace: which registry files exist depends on what each namespace contains
+		out = append(out, CorpusSpec{Name: name + "Split", Schemas: []string{e}, Flags: []string{"--split-internal", "--tl2WhiteList=*", "--generateByteVersions=*", "--generateRandomCode"}, TL2: true, Bytes: true, LengthCheck: true, Random: true, Split: true, Quick: true})
 	}
 	return out
 }
